@@ -137,7 +137,7 @@ def cases(rng, tier):
 
 
 SPEC = {
-    'lean': ['C13', 'NatSem'],
+    'lean': ['C13', 'NatSem', 'ByName'],
     'cases': cases,
     'big': True,
     'stream': 'C13 observer event stream (DebuggerBase events vs model events)',
